@@ -134,6 +134,7 @@ func E1Tables() *an.Tables {
 			// Worker (C17)
 			{ID: "Worker idle-check->start do", Func: "(*Worker).Do", From: "read:Worker.stop", To: "go:(*Worker).do", Lock: "Worker.mu", Why: "an instance starts only when none exists"},
 			{ID: "Worker idle-check->start wait", Func: "(*Worker).Do", From: "read:Worker.done", To: "go:(*Worker).wait", Lock: "Worker.mu", Why: "one watcher per instance"},
+			{ID: "Worker register holder", Func: "(*Worker).Do", From: "read:Worker.wg", To: "call:(*sync.WaitGroup).Add", Lock: "Worker.mu", Why: "a holder is registered on the wait group in the hold in which it was read (the watcher cannot take and drain it in between)"},
 			{ID: "Worker take wg", Func: "(*Worker).wait", From: "read:Worker.wg", To: "write:Worker.wg", Lock: "Worker.mu", Why: "the wait group is taken and cleared atomically"},
 			{ID: "Worker stop-decision->reset", Func: "(*Worker).wait", From: "read:Worker.wg", To: "write:Worker.stop", Lock: "Worker.mu", Why: "Do blocks from the decision to stop until the instance has exited"},
 			// Exclusive (C10)
@@ -148,6 +149,7 @@ func E1Tables() *an.Tables {
 			{ID: "ChanCaster.Send arm->reset", Func: "(*ChanCaster).Send", From: "call:(*sync/atomic.Uint64).Load", To: "call:(*sync/atomic.Uint64).CompareAndSwap", Lock: "ChanCaster.mutex", Why: "Send holds the write lock from the first load to the reset"},
 		},
 		Requires: []an.Require{
+			{ID: "Worker holder registered under mu", Func: "(*Worker).Do", Event: "call:(*sync.WaitGroup).Add", Lock: "Worker.mu", Write: true, Why: "registration is atomic with the watcher's take-and-clear of the wait group"},
 			{ID: "Exclusive map update under item mutex", Func: "(*Exclusive).call$1", Event: "write:Exclusive.work[]", Lock: "exclusiveItem.mutex", Write: true, Why: "successor installed / key deleted while the key's item mutex is held"},
 			{ID: "Channel.Close cancels inside the hold", Func: "(*Channel).Close$1", Event: "call:field:Channel.cancel", Lock: "Channel.mutex", Write: true, Why: "a Get that holds the mutex sees the cancelled context before taking from the source"},
 			{ID: "ChanPubSub.Send delivers under sendingMu", Func: "(*ChanPubSub).Send", Event: "call:(*ChanCaster).Send", Lock: "ChanPubSub.sendingMu", Write: true, Why: "no subscription during delivery"},
